@@ -28,6 +28,7 @@ type sxpath struct {
 	Pk    string  `json:"pk"`
 	Pn    string  `json:"pn"`
 	Pv    string  `json:"pv"`
+	Pre   string  `json:"pre"` // "attr": [@k='1'] in front of the last predicate
 }
 type c04Case struct {
 	D   sdoc   `json:"d"`
@@ -236,6 +237,9 @@ func (x *sxpath) renderV(rich bool) string {
 		} else {
 			sb.WriteString("//" + qn(s.Test))
 		}
+	}
+	if x.Pre == "attr" {
+		sb.WriteString("[@" + qn("k") + "=" + xpathLit(valOf("1", rich)) + "]")
 	}
 	switch x.Pk {
 	case "child=":
@@ -499,6 +503,9 @@ func genXPath(r interface{ Intn(int) int }) sxpath {
 		x.Pk, x.Pn = "child", tests[r.Intn(3)]
 	default:
 		x.Pk = "none"
+	}
+	if x.Pk != "none" && r.Intn(4) == 0 {
+		x.Pre = "attr"
 	}
 	return x
 }
